@@ -145,7 +145,7 @@ func genCodecOpKind(op int) codecOp {
 		}
 		how := ch("c18.deep-how", 3)
 		plan := simio.Plan{TruncAt: -1, ErrAt: -1, Style: simio.Style(ch("c18.style", 3)), Seekable: ch("c18.seekable", 2) == 1}
-		plan.SeekFails = plan.Seekable && ch("c18.seek-fails", 3) == 1 // a pipe behind an *os.File
+		plan.SeekFails = plan.Seekable && ch("c18.seek-fails", 2) == 1 // a pipe behind an *os.File
 		return codecOp{fmt.Sprintf("value nested %d levels deep (%s)", depth, []string{"Decode+force", "Decode+EvaluateValue", "Skip"}[how]), func() string {
 			return resultOf(func() (string, error) {
 				if how == 2 {
@@ -337,7 +337,7 @@ func genCodecOpKind(op int) codecOp {
 		t := genType()
 		b := ref.Encode(nil, genVal(t, 0, genOpts{maxDepth: 3}))
 		plan := simio.Plan{TruncAt: -1, ErrAt: -1, Style: simio.Style(ch("c18.style", 3)), Seekable: ch("c18.seekable", 2) == 1}
-		plan.SeekFails = plan.Seekable && ch("c18.seek-fails", 3) == 1 // a pipe behind an *os.File
+		plan.SeekFails = plan.Seekable && ch("c18.seek-fails", 2) == 1 // a pipe behind an *os.File
 		return codecOp{"Skip", func() string {
 			return resultOf(func() (string, error) {
 				o := stSkip(b, wire.Type(t), plan)
@@ -363,6 +363,9 @@ func genCodecOpKind(op int) codecOp {
 		b := ref.Encode(nil, genVal(t, 0, genOpts{maxDepth: 3}))
 		if simrt.Flip("c18.mutate", 0.2) {
 			b, _ = mutate(b, nil, 0)
+		}
+		if len(b) > 2 && simrt.Flip("c18.cut-short", 0.15) {
+			b = b[:len(b)-1-ch("c18.cut-by", len(b)/2)] // the input ends inside the value
 		}
 		return codecOp{"Decode+force", func() string {
 			return resultOf(func() (string, error) {
